@@ -385,9 +385,17 @@ func cmdConcFree(args []string) {
 		// every third job renders with NoFormat; all jobs write through slow writers (the bytes handed to Write must
 		// stay valid while other goroutines render)
 		nf := func(i int) bool { return i%3 == 1 }
+		// the goroutines run FIRST: whatever the library fills lazily and keeps for the whole process (a table of tokens,
+		// of names, of formatted fragments) is then filled by concurrent first uses, where the race detector sees it;
+		// the solo runs that the outputs are compared with come afterwards (even rounds) or before (odd rounds)
 		solo := make([][]byte, len(hs))
-		for i, h := range hs {
-			solo[i] = RunHistoryW(h, nf(i), true)
+		soloRuns := func() {
+			for i, h := range hs {
+				solo[i] = RunHistoryW(h, nf(i), true)
+			}
+		}
+		if round%2 == 1 {
+			soloRuns()
 		}
 		got := make([][]byte, len(hs))
 		var wg sync.WaitGroup
@@ -399,6 +407,9 @@ func cmdConcFree(args []string) {
 			}(i)
 		}
 		wg.Wait()
+		if round%2 == 0 {
+			soloRuns()
+		}
 		for i := range hs {
 			id++
 			tw.Traces++
